@@ -821,6 +821,33 @@ var rctPool = []rctEntry{
 	{"", "invalid"},
 	{"application/json; charset", "invalid"},
 	{"application/json/x", "invalid"},
+	// surface shapes of the request Content-Type: case, whitespace, parameters, lists, near misses
+	{"application/json;charset=UTF-8", "json"},
+	{"application/json ; charset=utf-8", "json"},
+	{" application/json", "json"},
+	{"application/json\t", "json"},
+	{"application/json;", "json"},
+	{"Application/Json; Charset=\"utf-8\"", "json"},
+	{"application/json; q=0.5", "json"},
+	{"application/json; boundary=x", "json"},
+	{"APPLICATION/GRAPHQL", "graphql"},
+	{"application/graphql;charset=utf-8;q=1", "graphql"},
+	{"application/x-www-form-urlencoded; charset=UTF-8", "urlencoded"},
+	{"Application/X-WWW-Form-Urlencoded", "urlencoded"},
+	{"MULTIPART/FORM-DATA; boundary=x", "multipart"},
+	{"application/json,application/graphql", "invalid"},
+	{"application/json, text/plain", "invalid"},
+	{"application/jsonx", "other"},
+	{"application/json+graphql", "other"},
+	{"application/graphql+json", "other"},
+	{"text/json", "other"},
+	{"*/*", "other"},
+	{"application/*", "other"},
+	{"application/x-www-form-urlencodedx", "other"},
+	{"multipart/mixed; boundary=x", "other"},
+	{"json", "other"},
+	{";application/json", "invalid"},
+	{"application/ json", "invalid"},
 }
 
 func accepts(sel ...int) []accPart {
@@ -843,6 +870,219 @@ var accSets = [][]accPart{
 	accepts(5, 1),       // q ignored
 	accepts(3),
 	accepts(14),
+}
+
+// ---------------------------------------------------------------- Accept headers: the full surface
+//
+// A header is a comma-joined list of parts; a part is a media range of one of six CATEGORIES (json, gqlresp, */*,
+// application/*, a range the server cannot produce, an unparsable part) in some surface spelling: case, leading /
+// trailing blanks and tabs, parameters (q-values incl. q=0, charset, quoted values, several parameters, a trailing
+// semicolon). The class the model is given is mime.ParseMediaType's own answer for the trimmed part.
+
+var accCats = [][]string{
+	{"application/json"},
+	{"application/graphql-response+json"},
+	{"*/*"},
+	{"application/*"},
+	{"text/html", "image/webp", "text/*", "application/xml", "application/json+x", "application/graphql+json", "application/jsonx",
+		"*/json", "application/graphql", "text/json", "application/graphql-response", "application/xhtml+xml", "text/event-stream", "multipart/mixed"},
+	{"", " ", ";;", "a/b/c", "application/json; q", "application/json;q=", "/json", "application/", "application/json/", "app lication/json",
+		"application/json;profile=\"a", "b\"", "*", "*/*/*"},
+}
+
+var accCatNames = []string{"json", "gqlresp", "any", "application-any", "unknown", "unparsable"}
+
+func mkPart(raw string) accPart {
+	mt, _, err := mime.ParseMediaType(strings.TrimSpace(raw))
+	if err != nil {
+		return accPart{raw, "!"}
+	}
+	return accPart{raw, mt}
+}
+
+// surface spells the media range `base` of category cat in a random way that keeps it what it is.
+func surface(r *rng.R, cat int) accPart {
+	base := accCats[cat][r.Below(len(accCats[cat]))]
+	if cat == 5 {
+		return mkPart(base)
+	}
+	s := base
+	switch r.Below(4) {
+	case 1:
+		s = strings.ToUpper(s)
+	case 2: // Application/Json
+		b := []byte(s)
+		up := true
+		for i, c := range b {
+			if up && c >= 'a' && c <= 'z' {
+				b[i] = c - 32
+			}
+			up = c == '/' || c == '-' || c == '+'
+		}
+		s = string(b)
+	}
+	switch r.Below(9) {
+	case 2:
+		s += fmt.Sprintf(";q=0.%d", 1+r.Below(9))
+	case 3:
+		s += "; charset=utf-8"
+	case 4:
+		s += ";q=0" // "not acceptable" by RFC 9110; q-values are not looked at (modelled as it is)
+	case 5:
+		s += "; profile=\"x y\"; q=1.0"
+	case 6:
+		s += " ; Q=0.5;charset=UTF-8"
+	case 7:
+		s += ";"
+	case 8:
+		s += ";q=1;ext=\"a;b\""
+	}
+	switch r.Below(5) {
+	case 1:
+		s = " " + s
+	case 2:
+		s += " "
+	case 3:
+		s = "\t " + s + "  "
+	}
+	p := mkPart(s)
+	if p.class != base {
+		panic(fmt.Sprintf("accept surface %q of %q: mime says %q", s, base, p.class))
+	}
+	return p
+}
+
+// accLists: every ordered list of 1..maxLen categories, `draws` surface spellings each
+func accLists(r *rng.R, maxLen, draws int) [][]accPart {
+	var res [][]accPart
+	var rec func(prefix []int)
+	rec = func(prefix []int) {
+		if len(prefix) > 0 {
+			for d := 0; d < draws; d++ {
+				l := make([]accPart, len(prefix))
+				for i, c := range prefix {
+					l[i] = surface(r, c)
+				}
+				if len(l) == 1 && strings.TrimSpace(l[0].raw) == "" && l[0].raw != "" {
+					l[0] = accPart{"", "!"} // a blank-only header value: net/http hands it on as it is; keep the plain empty one
+				}
+				res = append(res, l)
+			}
+		}
+		if len(prefix) == maxLen {
+			return
+		}
+		for c := range accCats {
+			rec(append(append([]int{}, prefix...), c))
+		}
+	}
+	rec(nil)
+	return res
+}
+
+func randAccept(r *rng.R) []accPart {
+	n := 1 + r.Below(8)
+	l := make([]accPart, n)
+	for i := range l {
+		c := r.Below(len(accCats))
+		if r.Below(3) == 0 { // unknown / unparsable parts are what the loop has to get past
+			c = 4 + r.Below(2)
+		}
+		l[i] = surface(r, c)
+	}
+	return l
+}
+
+// ---------------------------------------------------------------- server configurations
+
+var tokenLimits = []int{0, 4, 9, 1000}
+var presenters = []string{"", "strip", "recode", "uncode", "rewrap"}
+var ctxMuts = []string{"", "complexity0", "complexity9", "deny-nocode", "deny-custom", "deny-validation"}
+
+func randCfg(r *rng.R) scfg {
+	c := scfg{}
+	if r.Below(2) == 0 {
+		c.TokenLimit = tokenLimits[1+r.Below(3)]
+		if r.Below(4) == 0 {
+			c.TokenLimit = 1 + r.Below(30)
+		}
+	}
+	c.NoSuggest = r.Below(3) == 0
+	if r.Below(2) == 0 {
+		c.Presenter = presenters[r.Below(len(presenters))]
+	}
+	if r.Below(3) == 0 {
+		c.Ctx = ctxMuts[r.Below(len(ctxMuts))]
+	}
+	return c
+}
+
+// cfgGrid: token limit x error presenter, token limit x context mutator, suggestions off x both (pairwise)
+func cfgGrid() []scfg {
+	var l []scfg
+	seen := map[scfg]bool{{}: true}
+	add := func(c scfg) {
+		if !seen[c] {
+			seen[c] = true
+			l = append(l, c)
+		}
+	}
+	for _, tl := range tokenLimits {
+		for _, p := range presenters {
+			add(scfg{TokenLimit: tl, Presenter: p})
+		}
+		for _, m := range ctxMuts {
+			add(scfg{TokenLimit: tl, Ctx: m})
+		}
+		add(scfg{TokenLimit: tl, NoSuggest: true})
+	}
+	for _, p := range presenters {
+		add(scfg{NoSuggest: true, Presenter: p})
+		for _, m := range ctxMuts[1:] {
+			add(scfg{Presenter: p, Ctx: m})
+		}
+	}
+	return l
+}
+
+// refusalDocs: one document per way the executor refuses (or does not refuse) a request
+func refusalDocs() []doc {
+	b := badDocs()
+	return []doc{
+		validDoc([]op{{"query", ""}}, false),                                    // 3 tokens: runs unless a limit < 3 / a context mutator stops it
+		validDoc([]op{{"query", "a"}, {"mutation", "b"}}, false),                // 10 tokens; operationName decides (unknown / absent: refused)
+		validDoc([]op{{"mutation", "a"}}, true),                                 // variables (bad: refused); a mutation (GET refuses)
+		validDoc([]op{{"query", "a"}, {"query", "b"}, {"subscription", "c"}}, false), // 15 tokens
+		b[0], b[1],                                                              // syntax errors (late / early in the text)
+		{class: "P", text: "query a { name name name name name name name name name name ] }"}, // syntax error BEHIND the small token limits
+		b[3], b[5], b[10], b[11], b[12],                                         // validation errors: unknown field, lone anonymous, custom rule, suggestions
+		b[8], b[9],                                                              // no operation
+	}
+}
+
+// productCfg: configurations x documents x carriers x accept, each request on its own configured server
+func productCfg(cfgs []scfg, accs [][]accPart, docs []doc, cars []carrier) {
+	for _, c := range cfgs {
+		for _, acc := range accs {
+			for _, d := range docs {
+				for _, car := range cars {
+					names := []string{""}
+					if carries(car) {
+						names = opNames(d)
+					}
+					for _, n := range names {
+						k := kase{srv: fullSrv("", false), cfg: c, method: car.method, rct: car.rct, rctRaw: car.rctRaw, form: car.form,
+							accept: acc, accSet: acc != nil, d: d, opName: n}
+						run(k)
+						if d.vars && carries(car) {
+							k.varsBad = true
+							run(k)
+						}
+					}
+				}
+			}
+		}
+	}
 }
 
 type carrier struct {
@@ -1014,6 +1254,13 @@ func randCase(r *rng.R, malformed bool) kase {
 			k.accept = append(k.accept, accPool[r.Below(len(accPool))])
 		}
 	}
+	if r.Below(3) == 0 { // the full Accept surface
+		k.accSet = true
+		k.accept = randAccept(r)
+	}
+	if r.Below(3) == 0 { // a server with non-default error-path options
+		k.cfg = randCfg(r)
+	}
 	switch k.rct {
 	case "graphql":
 		k.form = []string{"raw", "prefixed"}[r.Below(2)]
@@ -1145,6 +1392,21 @@ func tableTie(r *rng.R, n int) {
 		}
 		ct(ctPool[r.Below(len(ctPool))], true, acc)
 	}
+	// the Accept surface (own generator state: the dry run of -min need not mirror it)
+	rs := rng.New(uint64(n)*31 + 5)
+	for _, l := range accLists(rs, 3, 2) {
+		ct("", true, l)
+	}
+	for i := 0; i < n; i++ {
+		ct(ctPool[r2idx(rs, len(ctPool))], true, randAccept(rs))
+	}
+}
+
+func r2idx(r *rng.R, n int) int {
+	if r.Below(2) == 0 {
+		return 0
+	}
+	return r.Below(n)
 }
 
 func main() {
@@ -1250,6 +1512,33 @@ func main() {
 			}
 		}
 	}
+	// 5b. server CONFIGURATION x every kind of refusal x carriers x negotiated media type: the options that change
+	// which error VALUE reaches the transport (parser token limit: plain parser error; disabled suggestions: swapped
+	// validation rule; error presenters that strip / rewrite / remove codes, in place or not; operation context
+	// mutators refusing with and without codes), each crossed with syntax errors, token-limit errors, validation errors
+	// (standard, custom rule, suggestion carrying), no operation, unknown operationName, bad variables, GET mutations
+	cfgCarriers := []carrier{carriers[0], carriers[2], carriers[4], carriers[6], carriers[7], carriers[9]}
+	cfgAcc := [][]accPart{nil, accepts(0), accepts(1)}
+	grid := cfgGrid()
+	if *tier != "thorough" { // quick: every configuration on two carriers + a rotating third, all on the thorough tier
+		for i, c := range grid {
+			productCfg([]scfg{c}, cfgAcc, refusalDocs(), []carrier{carriers[2], carriers[0], cfgCarriers[2+i%4]})
+		}
+	} else {
+		productCfg(grid, cfgAcc, refusalDocs(), cfgCarriers)
+	}
+	// 5c. the Accept surface: every ordered list of up to three part categories (known / covering / unknown /
+	// unparsable) in random surface spellings x {runs, parse error, validation error} x one carrier per transport + none
+	ra := rng.New(*seed*7919 + 101)
+	draws, maxLen := 1, 3
+	if *tier == "thorough" {
+		draws, maxLen = 3, 4
+	}
+	accDocs := []doc{docs[0], badDocs()[0], badDocs()[3]}
+	accCars := append(append([]carrier{}, cfgCarriers...), carrier{"PUT", "json", "application/json", ""})
+	product([][]tcfg{fullSrv("", false)}, accLists(ra, maxLen, draws), accDocs, accCars)
+	// … and on a server with a token limit (the refusal whose error value is the odd one out)
+	productCfg([]scfg{{TokenLimit: 4}}, accLists(ra, 2, 1), []doc{refusalDocs()[1]}, cfgCarriers)
 	// 6. seeded random: structured mostly-valid stream and a malformed stream
 	for i := 0; i < nrand; i++ {
 		run(randCase(r, false))
